@@ -458,17 +458,15 @@ class Queue(Greenlet):
             self._pool_spawn('relay', self._attempt, id, envelope, attempts)
 
     def _check_ready(self, now):
-        last_i = 0
-        for i, entry in enumerate(self.queued):
-            timestamp, entry_id = entry
-            if now >= timestamp:
-                self._pool_spawn('store', self._dequeue, entry_id)
-                last_i = i+1
-            else:
+        # Spawning may block on a bounded pool while other greenlets add new
+        # entries, so entries are taken off the timetable one at a time.
+        while self.queued:
+            timestamp, entry_id = self.queued[0]
+            if now < timestamp:
                 break
-        if last_i > 0:
-            self.queued = self.queued[last_i:]
-            self.queued_ids = set([id for _, id in self.queued])
+            del self.queued[0]
+            self.queued_ids.discard(entry_id)
+            self._pool_spawn('store', self._dequeue, entry_id)
 
     def _wait_store(self):
         while True:
@@ -503,10 +501,10 @@ class Queue(Greenlet):
         self.wake.clear()
         self.queued_lock.acquire()
         try:
-            for entry in self.queued:
-                self._pool_spawn('store', self._dequeue, entry[1])
-            self.queued = []
+            waiting, self.queued = self.queued, []
             self.queued_ids = set()
+            for entry in waiting:
+                self._pool_spawn('store', self._dequeue, entry[1])
         finally:
             self.queued_lock.release()
 
